@@ -38,6 +38,7 @@ type Solver struct {
 	depth     int
 	// defined-sets per push level so that pop forgets definitions made inside
 	defStack []map[int]bool
+	scopes   []scope
 }
 
 // NewSolver starts a solver. kind is "z3", "z3-new" or "cvc5".
@@ -112,6 +113,8 @@ func (s *Solver) Reset(ctx *Ctx) {
 	s.declSent = 0
 	s.depth = 0
 	s.defStack = nil
+	s.scopes = nil
+	s.pr.track = nil
 }
 
 func (s *Solver) syncDecls() {
@@ -133,13 +136,40 @@ func (s *Solver) define(t *Term) string {
 	return Ref(t)
 }
 
-// Assert adds t permanently (until Reset).
+// Assert adds t to the current scope (until the matching Pop, or Reset).
 func (s *Solver) Assert(t *Term) {
-	if s.depth != 0 {
-		panic("smt: Assert inside push")
-	}
 	r := s.define(t)
 	s.send("(assert " + r + ")")
+}
+
+type scope struct {
+	declSent int
+	defined  []int
+}
+
+// Push opens a scope: assertions, declarations and definitions made until the
+// matching Pop are forgotten by both the solver and the printer.
+func (s *Solver) Push() {
+	s.syncDecls()
+	s.send("(push 1)")
+	s.scopes = append(s.scopes, scope{declSent: s.declSent})
+	s.pr.track = &s.scopes[len(s.scopes)-1].defined
+}
+
+func (s *Solver) Pop() {
+	n := len(s.scopes) - 1
+	sc := s.scopes[n]
+	s.scopes = s.scopes[:n]
+	s.send("(pop 1)")
+	for _, id := range sc.defined {
+		delete(s.pr.defined, id)
+	}
+	s.declSent = sc.declSent
+	if n > 0 {
+		s.pr.track = &s.scopes[n-1].defined
+	} else {
+		s.pr.track = nil
+	}
 }
 
 func (s *Solver) readLine() string {
